@@ -355,6 +355,48 @@ template <class V> int run_rand(const std::string& out, long first, long nseq, i
   return 0;
 }
 
+// ------------------------------------------------------------------ nd: seeded histories on Array<D,float>
+void child_setup() { g_tr = nullptr; g_poison_path.clear(); }
+
+template <int D> int run_nd(const std::string& out, long first, long nseq, int len) {
+  using namespace c11n;
+  nd::Out tr(out); g_tr = &tr;
+  const std::string ty = "N" + std::to_string(D); g_ty = ty;
+  long long evals = 0, forks = 0, child_aborts = 0;
+  for (long q = first; q < first + nseq; ++q) {
+    vh::Rng rng((uint64_t)vh::seed_from_env() * 1000003ULL + (uint64_t)q * 7919ULL + (uint64_t)D * 131ULL);
+    const int K = rng.range(4, 12);
+    NSys<D> y(K);
+    tr.emit(vh::Json("Config").str("ty", ty).num("D", D).num("K", K).str("mode", "nd").num("seq", q));
+    tr.emit_raw("{\"e\":\"Init\",\"ty\":\"" + ty + "\",\"K\":" + std::to_string(K) + ",\"post\":" + observe<D>(y) + "}");
+    for (int i = 0; i < len; ++i) {
+      NOp op = choose<D>(rng, y, large_values<D>(y));
+      g_cur = "\"seq\":" + std::to_string(q) + ",\"step\":" + std::to_string(i) + ",\"op\":" + nop_json(op);
+      tr.flush_every(64);
+      NOutcome o; bool aborted = false;
+      if (op.forked) {
+        // operations built on full iterators / is_contiguous are tried in a child process first, so that a
+        // sanitizer report there is recorded (abort = true) and the history can go on with unchanged objects
+        ++forks;
+        NOutcome dummy;
+        if (!survives([&] { perform<D>(y, op, dummy); }, child_setup)) { aborted = true; ++child_aborts; }
+      }
+      if (!aborted) o.err = vh::threw([&] { perform<D>(y, op, o); });
+      std::string extra;
+      if (op.want_contig && !o.err && !aborted) extra = std::string("\"contig\":") + (y.s[op.t - 1]->is_contiguous() ? "true" : "false");
+      std::string post = observe<D>(y, extra);
+      g_cur.clear();
+      vh::Json j; j.str("e", "Step").str("ty", ty).raw("op", nop_json(op)).arr("res", o.res).boolean("err", o.err).boolean("abort", aborted).raw("post", post);
+      tr.emit(j);
+      ++evals;
+    }
+  }
+  tr.flush();
+  printf("{\"evaluations\":%lld,\"sequences\":%ld,\"forked\":%lld,\"child_aborts\":%lld}\n", evals, nseq, forks, child_aborts);
+  g_tr = nullptr;
+  return 0;
+}
+
 } // namespace c11
 
 int main(int argc, char** argv) {
@@ -375,6 +417,12 @@ int main(int argc, char** argv) {
     if (ty == "VI") return c11::run_rand<VectorWithOffset<int>>(argv[3], first, n, len);
     if (ty == "NF") return c11::run_rand<NumericVectorWithOffset<float, float>>(argv[3], first, n, len);
     if (ty == "A1") return c11::run_rand<Array<1, float>>(argv[3], first, n, len);
+  }
+  if (mode == "nd" && argc >= 7) {
+    const long first = atol(argv[4]), n = atol(argv[5]); const int len = atoi(argv[6]);
+    if (ty == "2") return c11::run_nd<2>(argv[3], first, n, len);
+    if (ty == "3") return c11::run_nd<3>(argv[3], first, n, len);
+    if (ty == "4") return c11::run_nd<4>(argv[3], first, n, len);
   }
   fprintf(stderr, "bad arguments\n");
   return 3;
